@@ -1386,11 +1386,13 @@ func (c *connection) Join(conn net.Conn, id string, dial gen.NetworkDial, tail [
 		return fmt.Errorf("connection id mismatch")
 	}
 
+	c.pool_mutex.Lock()
 	if c.terminated {
+		// must be checked under the lock (see Terminate), otherwise this
+		// link could be added to the pool of the closed links and stay open
+		c.pool_mutex.Unlock()
 		return fmt.Errorf("connection terminated")
 	}
-
-	c.pool_mutex.Lock()
 	if c.pool_size+1 < len(c.pool) {
 		c.pool_mutex.Unlock()
 		return fmt.Errorf("pool size limit")
@@ -1465,10 +1467,9 @@ func (c *connection) Join(conn net.Conn, id string, dial gen.NetworkDial, tail [
 }
 
 func (c *connection) Terminate(reason error) {
-	c.terminated = true
-
 	c.pool_mutex.Lock()
 	defer c.pool_mutex.Unlock()
+	c.terminated = true
 	for _, pi := range c.pool {
 		pi.connection.Close()
 	}
